@@ -14,6 +14,16 @@ sys.path.insert(0, os.path.dirname(__file__))
 from mutants_table import MUTANTS  # noqa: E402
 
 REPO = "/repo"
+VERIF = "/verif"
+# MUTANT_SCRATCH=1: work in a private copy of /repo HEAD and of /verif (/root/scratch/mut/wmutant)
+# instead of /repo itself (needed while a background run is using /repo)
+if os.environ.get("MUTANT_SCRATCH"):
+    import mutsweep  # noqa: E402
+    _w = "/root/scratch/mut/w" + os.environ.get("MUTANT_WORKER", "mutant")
+    if not os.path.exists(_w + "/verif/check") or os.environ.get("MUTANT_FRESH"):
+        mutsweep.setup_worker(os.environ.get("MUTANT_WORKER", "mutant"))
+    REPO = _w + "/repo"
+    VERIF = _w + "/verif"
 
 
 def sh(cmd, **kw):
@@ -45,7 +55,7 @@ def run_one(m, tests, tier):
         res["checks"] = {}
         for cid in m["checks"]:
             t0 = time.time()
-            r = sh(f"cd /verif && ./check {cid} --tier {tier}")
+            r = sh(f"cd {VERIF} && ./check {cid} --tier {tier}")
             viol = [l for l in r.stdout.splitlines() if l.startswith("VIOLATION")]
             fail = [l for l in r.stdout.splitlines() if l.startswith("failure in") or l.startswith("regress case")]
             res["checks"][cid] = {"exit": r.returncode, "violation": bool(viol), "wall_s": round(time.time() - t0, 1),
